@@ -559,9 +559,12 @@ class Model(Object):
             x._model = None
 
             # remove reference to the metabolite in all groups
+            context = get_context(self)
             associated_groups = self.get_associated_groups(x)
             for group in associated_groups:
-                group.remove_members(x)
+                group.remove_members([x])
+                if context:
+                    context(partial(group.add_members, [x]))
 
             if not destructive:
                 for the_reaction in list(x._reaction):  # noqa W0212
@@ -838,7 +841,9 @@ class Model(Object):
                 # remove reference to the reaction in all groups
                 associated_groups = self.get_associated_groups(reaction)
                 for group in associated_groups:
-                    group.remove_members(reaction)
+                    group.remove_members([reaction])
+                    if context:
+                        context(partial(group.add_members, [reaction]))
 
     def add_groups(self, group_list: Union[str, Group, List[Group]]) -> None:
         """Add groups to the model.
